@@ -48,10 +48,51 @@ func runC01(c *Ctx) {
 		deleteCondTable(c, a, "C01.relay")
 		// a rejected update of a combined notification must not swallow its deletes
 		multiComplete(c, a, "C01.relay-complete")
+		gnmiDispatch(c, a, "C01.relay-dispatch")
 	}
 	// the event-driven suppression must never call two different values equal
 	// (a suppressed change never reaches a streaming client)
 	equalArms(c, "C01.relay-equal", false)
+	// ---- the subscribe request template is shared between targets: sessions customise a clone
+	c.Rule("C01.request-private", "package manager (non-test): no store through a protobuf message received as a parameter, captured, or read out of another message (the SubscribeRequest template is shared by every target that names it; customizeRequest writes the target name into a proto.Clone only); at least one store into a clone exists")
+	{
+		nForeign, nOwn := 0, 0
+		for _, f := range P.PkgFuncs("manager") {
+			if P.InTestFile(f) {
+				continue
+			}
+			instrs(f, func(in ssa.Instruction) {
+				st, ok := in.(*ssa.Store)
+				if !ok {
+					return
+				}
+				fa, ok := st.Addr.(*ssa.FieldAddr)
+				if !ok || !isPBType(deref(fa.X.Type())) {
+					return
+				}
+				if _, isAlloc := fa.X.(*ssa.Alloc); isAlloc {
+					return // composite literal being built
+				}
+				root, _ := addrRoot(st.Addr)
+				switch r := root.(type) {
+				case *ssa.Call:
+					if calleeName(&r.Call) == "google.golang.org/protobuf/proto.Clone" {
+						nOwn++
+						c.OK("C01.request-private", fnName(f), "store "+Expr(st.Addr), P.Pos(in.Pos()), "into a proto.Clone")
+						return
+					}
+				case *ssa.Alloc:
+					nOwn++
+					return
+				}
+				nForeign++
+				c.Bad("C01.request-private", fnName(f), "store "+Expr(st.Addr), P.Pos(in.Pos()), "writes through a message the function does not own (root: "+Expr(root)+")")
+			})
+		}
+		c.Floor("C01.request-private/stores-into-clones", nOwn, 1)
+		_ = nForeign
+	}
+	c.Borrow("C13", map[string]string{"C13.session": "C01.relay-session"}, "every ended stream must reset the target's cache state before the next session, or leaves that vanished during the gap stay in the cache and in every client")
 	// ---- reg
 	{
 		n := 0
